@@ -239,7 +239,7 @@ def run(ctx):
         if ctx.mine(i):
             for _ in range(3):
                 _split_case(ctx, _hdr(rng), rng.randbytes(n), S)
-    for i in range(40 if ctx.quick else 600):
+    for i in range(40 if ctx.quick else 6000):
         n = rng.choice([rng.randint(0, 1000), rng.randint(0, 65536), 244 * rng.randint(1, 60) + rng.choice([-1, 0, 1])])
         raws = _split_case(ctx, _hdr(rng), rng.randbytes(n), S)
         if i == 0 and raws is not None:
@@ -253,4 +253,4 @@ def run(ctx):
         _split_case(ctx, _hdr(rng), rng.randbytes(n), S)
         ctx.count("boundary.max_blocks")
     _corruption(ctx, S)
-    _reassembly(ctx, S, 12 if ctx.quick else 200)
+    _reassembly(ctx, S, 12 if ctx.quick else 2500)
